@@ -24,7 +24,8 @@ import (
 )
 
 const rule = "integer texts: the text denotes a number of magnitude >= 2^53, or is an exponent/fraction spelling, or is mixed-case hex; " +
-	"values: >= 2^53; addresses/byte strings: mixed-case hex text or a text that must be rejected (wrong length, odd length, non-hex); distinct by hash of the case"
+	"values: >= 2^53; addresses/byte strings: mixed-case hex text or a text that must be rejected (wrong length, odd length, non-hex); " +
+	"histories: seq with >= 2 exponent/fraction spellings, hexseq in which a later valid text is not longer than an earlier one; every concurrent batch; distinct by hash of the case"
 
 func init() {
 	// the library logs every rejected numeric string at error level
@@ -186,9 +187,20 @@ func judgeChannel(vs []evid.Violation, text string, d numref.Denotation, ch chan
 	return vs, nil
 }
 
+// unmarshalOwned is json.Unmarshal on a private copy of doc that the caller overwrites as soon as the
+// call returns: whatever the target holds afterwards cannot live in the caller's bytes.
+func unmarshalOwned(doc []byte, target interface{}) error {
+	buf := append(make([]byte, 0, len(doc)+16), doc...)
+	err := json.Unmarshal(buf, target)
+	for i := range buf {
+		buf[i] = 'Z'
+	}
+	return err
+}
+
 func hexIntegerFrom(doc []byte) (*big.Int, *ethtypes.HexInteger, error) {
 	var h ethtypes.HexInteger
-	if err := json.Unmarshal(doc, &h); err != nil {
+	if err := unmarshalOwned(doc, &h); err != nil {
 		return nil, nil, err
 	}
 	return new(big.Int).Set(h.BigInt()), &h, nil
@@ -196,7 +208,7 @@ func hexIntegerFrom(doc []byte) (*big.Int, *ethtypes.HexInteger, error) {
 
 func hexUint64From(doc []byte) (*big.Int, *ethtypes.HexUint64, error) {
 	var u ethtypes.HexUint64
-	if err := json.Unmarshal(doc, &u); err != nil {
+	if err := unmarshalOwned(doc, &u); err != nil {
 		return nil, nil, err
 	}
 	return new(big.Int).SetUint64(u.Uint64()), &u, nil
@@ -476,17 +488,17 @@ func judgeAddr(c AddrCase) (vs []evid.Violation) {
 	doc, seen := quote(text)
 	vs = judgeHexChannel(vs, seen, 20, hexChannel{"Address0xHex/json", func() ([]byte, error) {
 		var a ethtypes.Address0xHex
-		err := json.Unmarshal(doc, &a)
+		err := unmarshalOwned(doc, &a)
 		return a[:], err
 	}})
 	vs = judgeHexChannel(vs, seen, 20, hexChannel{"AddressPlainHex/json", func() ([]byte, error) {
 		var a ethtypes.AddressPlainHex
-		err := json.Unmarshal(doc, &a)
+		err := unmarshalOwned(doc, &a)
 		return a[:], err
 	}})
 	vs = judgeHexChannel(vs, seen, 20, hexChannel{"AddressWithChecksum/json", func() ([]byte, error) {
 		var a ethtypes.AddressWithChecksum
-		err := json.Unmarshal(doc, &a)
+		err := unmarshalOwned(doc, &a)
 		return a[:], err
 	}})
 	vs = judgeHexChannel(vs, text, 20, hexChannel{"NewAddress", func() ([]byte, error) {
@@ -560,12 +572,12 @@ func judgeBytes(c HexCase) (vs []evid.Violation) {
 	doc, seen := quote(text)
 	vs = judgeHexChannel(vs, seen, -1, hexChannel{"HexBytes0xPrefix/json", func() ([]byte, error) {
 		var h ethtypes.HexBytes0xPrefix
-		err := json.Unmarshal(doc, &h)
+		err := unmarshalOwned(doc, &h)
 		return h, err
 	}})
 	vs = judgeHexChannel(vs, seen, -1, hexChannel{"HexBytesPlain/json", func() ([]byte, error) {
 		var h ethtypes.HexBytesPlain
-		err := json.Unmarshal(doc, &h)
+		err := unmarshalOwned(doc, &h)
 		return h, err
 	}})
 	vs = judgeHexChannel(vs, text, -1, hexChannel{"NewHexBytes0xPrefix", func() ([]byte, error) {
